@@ -270,6 +270,11 @@ fn run_one(tier: Tier, i: u64, seed: u64, c: &mut Counters, known: &std::collect
     out
 }
 
+pub fn digest(n: u64) {
+    let known = Default::default();
+    digest_runs("C06", n, |i, seed, c| run_one(Tier::Quick, i, seed, c, &known));
+}
+
 pub fn check(tier: Tier) -> i32 {
     let n = scaled(match tier {
         Tier::Quick => 12_000,
